@@ -135,7 +135,11 @@ func c11Case(r *Result, m *Model, rng randLike, n int) {
 				cp.Cut--
 			}
 		}
-		switch rng.IntN(4) {
+		switch rng.IntN(5) {
+		case 4:
+			// just past the limit: the recorded activity lies further back than the shift (it was recorded before this
+			// store was built), so the plan is stale whatever the machine's speed; a limit compared in whole seconds misses it
+			cp.shift, cp.Aged, cp.Shift = maxAge+50*time.Millisecond, true, "maxAge+50ms"
 		case 0:
 			cp.shift, cp.Aged, cp.Shift = maxAge+2*time.Second, true, "maxAge+2s"
 		case 1:
@@ -309,7 +313,7 @@ func genSmallSpec(rng randLike, prefix string) *PlanSpec {
 func init() {
 	campaigns["C11"] = func(r *Result) {
 		quietLogs()
-		r.Rule = "stores of 2-5 plans, each NotStarted, Running (a random cut of a recorded execution replayed into the store) or terminal, with activity back-dated by maxAge+2s / maxAge+1h (stale) or maxAge-3s / 0 (live) against WithMaxLastUpdate(10s); recovery on (80%) or off; which plans were acted on, plugin calls and stored images before/after compared with Model/Startup; non-trivial = store with plans in >=2 different statuses; distinct by store description"
+		r.Rule = "stores of 2-5 plans, each NotStarted, Running (a random cut of a recorded execution replayed into the store) or terminal, with activity back-dated by maxAge+50ms / maxAge+2s / maxAge+1h (stale) or maxAge-3s / 0 (live) against WithMaxLastUpdate(10s); recovery on (80%) or off; which plans were acted on, plugin calls and stored images before/after compared with Model/Startup; non-trivial = store with plans in >=2 different statuses; distinct by store description"
 		m := getModel()
 		defer putModel(m)
 		rng := newRand(11)
